@@ -75,7 +75,7 @@ pub fn run(_args: &[String], out: &mut dyn Write) -> i32 {
         let r = sx::catch(move || {
             let arena = Bump::new();
             let mut ctx = ReportContext::new(&arena);
-            let opts = report::ProcessOptions { price_db_path: dbp };
+            let opts = { let mut o = report::ProcessOptions::default(); o.price_db_path = dbp; o };
             let processed = report::process(&mut ctx, proc::fake_loader(&files2, root), &opts);
             let ret = match processed {
                 Err(e) => (
